@@ -9,9 +9,9 @@ from vf.tlc import tla_set
 
 INV = ["TypeOK", "UnwrapIsInverse"]
 ALLMODES = ["aes-ecb", "aes-cbc", "aes-cbcpad", "aes-ctr", "aes-gcm", "aes-cmac", "des3-cbcpad", "des3-cmac", "des3-ecb",
-            "hmac-sha256", "hmac-sha1", "hmac-sha512", "rsa-pkcs", "sha256-rsa-pkcs"]
-ALLR = ["sha256-rsa-pss", "rsa-oaep", "rsa-pkcs-enc", "ecdsa"]
-ALLKINDS = ["aes16", "aes32", "des3", "gen16", "gen20", "gen24", "gen32", "gen64", "rsa", "dh", "ec"]
+            "hmac-sha256", "hmac-sha1", "hmac-sha512", "rsa-pkcs", "sha256-rsa-pkcs", "rsa-x509", "eddsa", "aes-gcm2", "aes-ctr64"]
+ALLR = ["sha256-rsa-pss", "rsa-oaep", "rsa-pkcs-enc", "ecdsa", "dsa-sha256"]
+ALLKINDS = ["aes16", "aes32", "des3", "gen16", "gen20", "gen24", "gen32", "gen64", "rsa", "dh", "ec", "ed", "dsa"]
 # model name -> the PKCS#11 mechanisms it needs (for the restriction to what both crypto backends advertise)
 NEEDS = {"KW": ["AES_KEY_WRAP"], "KWP": ["AES_KEY_WRAP_PAD"], "CBC": ["AES_CBC"], "CBCPAD": ["AES_CBC_PAD"], "RSA": ["RSA_PKCS"],
          "OAEP": ["RSA_PKCS_OAEP"], "ECB": ["AES_ECB_ENCRYPT_DATA", "DES3_ECB_ENCRYPT_DATA"],
@@ -20,7 +20,8 @@ NEEDS = {"KW": ["AES_KEY_WRAP"], "KWP": ["AES_KEY_WRAP_PAD"], "CBC": ["AES_CBC"]
          "aes-ctr": ["AES_CTR"], "aes-gcm": ["AES_GCM"], "aes-cmac": ["AES_CMAC"], "des3-cbcpad": ["DES3_CBC_PAD"],
          "des3-cmac": ["DES3_CMAC"], "des3-ecb": ["DES3_ECB"], "hmac-sha256": ["SHA256_HMAC"], "hmac-sha1": ["SHA_1_HMAC"],
          "hmac-sha512": ["SHA512_HMAC"], "rsa-pkcs": ["RSA_PKCS"], "sha256-rsa-pkcs": ["SHA256_RSA_PKCS"],
-         "sha256-rsa-pss": ["SHA256_RSA_PKCS_PSS"], "rsa-oaep": ["RSA_PKCS_OAEP"], "rsa-pkcs-enc": ["RSA_PKCS"], "ecdsa": ["ECDSA"]}
+         "sha256-rsa-pss": ["SHA256_RSA_PKCS_PSS"], "rsa-oaep": ["RSA_PKCS_OAEP"], "rsa-pkcs-enc": ["RSA_PKCS"], "ecdsa": ["ECDSA"], "rsa-x509": ["RSA_X_509"],
+         "eddsa": ["EDDSA"], "aes-gcm2": ["AES_GCM"], "aes-ctr64": ["AES_CTR"], "dsa-sha256": ["DSA_SHA256"]}
 TC = dict(MaxK="8", MaxB="4", Kinds=tla_set(ALLKINDS), WrapMechs='{"KW", "KWP", "CBC", "CBCPAD", "RSA", "OAEP"}',
           DerMechs='{"ECB", "CBCD", "CATBD", "CATDB", "DH", "ECDH"}', Datas="{0, 1, 2, 3, 4}", Modes=tla_set(ALLMODES),
           RModes=tla_set(ALLR), Chunks="{0, 1, 2, 3, 4, 5}", ImpIdx="{1, 2}",
@@ -71,11 +72,11 @@ def crypt_graphs(quick, lib, extra, common=None):
     def ok(names):
         return [n for n in names if common is None or all(m in common for m in NEEDS[n])]
     ch = (0, 1, 2, 3, 4, 5)
-    gs = [dict(name="aes", constants=C(["aes16", "aes32"], ["imp", "crypt"], maxk=1, modes=ok(ALLMODES[:6]), datas=(0, 1, 2, 3, 4),
-                                       chunks=ch)),
+    gs = [dict(name="aes", constants=C(["aes16", "aes32"], ["imp", "crypt"], maxk=1, modes=ok(ALLMODES[:6] + ALLMODES[16:]),
+                                       datas=(0, 1, 2, 3, 4), chunks=ch)),
           dict(name="des-mac", constants=C(["des3", "gen20", "gen32", "gen64"], ["imp", "gen", "crypt"], maxk=1, modes=ok(ALLMODES[6:12]),
                                            datas=(0, 1, 3, 4), chunks=ch)),
-          dict(name="rsa", constants=C(["rsa", "ec"], ["imp", "crypt", "rcrypt", "digest"], maxk=1, modes=ok(ALLMODES[12:]),
+          dict(name="rsa", constants=C(["rsa", "ec", "ed", "dsa"], ["imp", "crypt", "rcrypt", "digest"], maxk=1, modes=ok(ALLMODES[12:16]),
                                        rmodes=ok(ALLR), datas=(0, 1, 2, 4), chunks=ch))]
     for g in gs:
         g.update(trace_constants=TC, driver_args=[lib] + extra, maxlen=14, maxwalks=None if not quick else 400)
